@@ -192,7 +192,7 @@ func init() {
 		add("C20/sno/restore/g1x3/clock", snoBody(1, 3, true, true, 1), unb, 100, 1)
 		add("C20/sno/restore/g2x2", snoBody(2, 2, false, true, 1), d(2), 200, 4)
 		add("C20/sno/generators2/g1x2/clock", snoBody(1, 2, true, false, 2), d(2), 100, 2)
-		add("C20/sno/generators3/g1x1", snoBody(1, 1, false, false, 3), unb, 50, 1)
+		add("C20/sno/generators3/g1x1", snoBody(1, 1, false, false, 3), d(3), 50, 4)
 		if thorough {
 			add("C20/sno/g2x3/clock", snoBody(2, 3, true, false, 1), d(2), 1000, 16)
 			add("C20/sno/g3x2", snoBody(3, 2, false, false, 1), d(3), 1000, 16)
